@@ -20,7 +20,13 @@ RULE = ("every batch-free program (leaves: child task | ConstFuture; a body = 0.
         "value) under the mixed style with no / odd-id explicit asyncio_fn on the <=1-deviation rungs and with none on the "
         "2-deviation rungs, both builds. Each (program, configuration) is executed twice: fn(code) on the asynq scheduler and "
         "`await fn.asyncio(code)` from a driver coroutine on one long-lived event loop stepped one iteration at a time next "
-        "to an unrelated watcher coroutine. evals = executions (both engines); states = (program, configuration) pairs "
+        "to an unrelated watcher coroutine. On the rungs with <=1 deviation every program additionally runs a second phase "
+        "(plain function and mixed style without explicit asyncio_fn, mixed style with even / odd explicit asyncio_fn, mixed "
+        "style exception-valued): after the first await completed (value or exception) the same driver coroutine starts a "
+        "FRESH unrelated watcher task and awaits fn.asyncio(code) again, the first two bodies suspending once so that the "
+        "watcher runs while the call is in flight; the fresh watcher must read is_asyncio_mode() False at every sample, its "
+        "own plain synchronous @asynq() calls must succeed, and outcome and body log of the second await must equal the "
+        "first. evals = executions (both engines); states = (program, configuration) pairs "
         "judged; transitions = body steps (starts + resumptions at yields) over all executions; non-trivial = programs with "
         ">=2 tasks or a failure (raise / refused synchronous call)")
 EXPLANATION = ("exhaustive product of the bounded batch-free program family with call styles and asyncio_fn modes; every "
@@ -78,6 +84,8 @@ LADDER = {
         (4, 3, MENU_TRY, CFG_ONE),
     ],
 }
+PHASE2_MAX_K = 1  # rungs with <= this many deviations also run the second phase (see RULE) ...
+PHASE2_CFGS = [[0, 0, 0], [3, 0, 0], [3, 1, 0], [3, 2, 0], [3, 0, 1]]  # ... under these configurations
 INFO_LADDER = {"quick": (3, 1), "thorough": (4, 1)}
 
 # --------------------------------------------------------------------------------------------------
@@ -268,7 +276,7 @@ def jobs(tier, seed):
             if not cs:
                 continue
             for bases in _chunked(bf_programs(size), _chunk(size, k, len(cs))):
-                yield {"family": "main", "bases": bases, "menu": menu if k else [], "k": k, "cfgs": cs}
+                yield {"family": "main", "bases": bases, "menu": menu if k else [], "k": k, "cfgs": cs, "phase2": k <= PHASE2_MAX_K}
         done.append((n, k, menu, cfgs))
     n, k = INFO_LADDER[tier]
     for size in range(1, n + 1):
@@ -391,13 +399,13 @@ def _order_check(log, ych, found, mode):
 STYLE_NAMES = ("fn", "method", "proxy", "mix")
 
 
-def judge(ref, style, aio, xv, out):
+def judge(ref, style, aio, xv, out, phase2=False):
     """runs one configuration on both engines; appends violations; returns number of executions"""
     from .. import aio as A
     prog = ref.prog
     found = []
     rs, outs = A.run_sync(prog, style, aio, xv)
-    ra, outa, problems = A.run_aio(prog, style, aio, xv)
+    ra, outa, problems = A.run_aio(prog, style, aio, xv, phase2)
     if xv:
         if ref._xv is None:
             ref._xv = (_xv_exp(A, ref.exp_s), _xv_exp(A, ref.exp_a))
@@ -459,23 +467,57 @@ def judge(ref, style, aio, xv, out):
     _order_check(ra.log, ref.ych, found, "asyncio")
     # ---- the asyncio-mode flag
     failed = outa is not None and outa[0] == "err"
-    fo = ra.flags_outer  # [outside before, outside after, driver before await, driver after await]
-    if len(fo) == 4:
+    fo = ra.flags_outer  # [outside before, outside after, driver before await, driver after await(, after 2nd await)]
+    if len(fo) == (5 if phase2 else 4):
         if fo[0] or fo[2]:
             found.append(("mode-flag-before", "is_asyncio_mode() is True before awaiting fn.asyncio(code)"))
         if fo[1] or fo[3]:
             found.append(("mode-flag-after", "is_asyncio_mode() is still True after `await fn.asyncio(code)` %s"
                           % ("raised" if failed else "returned")))
+        elif phase2 and fo[4]:
+            found.append(("mode-flag-after", "is_asyncio_mode() is still True after the second `await fn.asyncio(code)` in the same coroutine"))
     elif not problems:
         found.append(("harness", "driver did not record the flag: %r" % (fo,)))
     if any(ra.flags_watch):
         found.append(("mode-flag-leak-to-other-coroutine", "is_asyncio_mode() read True in an unrelated coroutine on the same loop "
                       "(samples per loop iteration: %r)" % (ra.flags_watch,)))
+    nat = ra.native
+    if phase2 and not problems:
+        out["transitions"] += sum(1 for ev in ra.log2 if ev[0] in "srx")
+        cnt["second_phase_runs"] = cnt.get("second_phase_runs", 0) + 1
+        if len(ra.flags_watch2) > 1:
+            cnt["second_phase_runs_watched_in_flight"] = cnt.get("second_phase_runs_watched_in_flight", 0) + 1
+        if any(ra.flags_watch2):
+            found.append(("mode-flag-leak-to-later-coroutine", "a coroutine started after a first `await fn.asyncio(code)` completed "
+                          "read is_asyncio_mode() True while a second call was in flight in the coroutine that created it (samples %r)"
+                          % (ra.flags_watch2,)))
+        if any(c != "ok" for c in ra.watch2_calls):
+            found.append(("sync-call-refused-in-unrelated-coroutine", "plain synchronous @asynq call made by an unrelated coroutine "
+                          "while fn.asyncio(code) was in flight elsewhere gave %r" % ([c for c in ra.watch2_calls if c != "ok"][0],)))
+        o1, o2 = outa, ra.out2
+        if o1 is None or o2 is None or o1[0] != o2[0]:
+            found.append(("second-run-differs", "first await gave %r, second await of the same call in the same coroutine gave %r" % (o1, o2)))
+        elif o1[0] == "ok":
+            if not A.same(A.norm(o1[1]), A.norm(o2[1])):
+                found.append(("second-run-differs", "first await returned %r, second await returned %r" % (A.norm(o1[1]), A.norm(o2[1]))))
+        elif type(o1[1]) is not type(o2[1]) or A.norm(o1[1].args) != A.norm(o2[1].args):
+            found.append(("second-run-differs", "first await raised %r, second await raised %r" % (o1[1], o2[1])))
+        p1, p2 = A.strip_flags(ra.log, 1), A.strip_flags(ra.log2, 1)
+        if p1 != p2:
+            for tid in sorted(set(p1) | set(p2)):
+                if p1.get(tid) != p2.get(tid):
+                    found.append(("second-run-differs", "body of task %d behaves differently in the second await: first %r, second %r"
+                                  % (tid, p1.get(tid), p2.get(tid))))
+                    break
+        for ev in ra.log2:
+            if ev[1] not in nat and not ev[-1]:
+                found.append(("mode-flag-off-inside", "is_asyncio_mode() is False inside the body of task %d during the second "
+                              "await (%r)" % (ev[1], ev[:-1])))
+                break
     if not all(ra.const_flags):
         found.append(("mode-flag-off-inside", "is_asyncio_mode() is False inside a non-generator @asynq() method run via .asyncio()"))
     if any(rs.flags_outer) or any(rs.const_flags) or any(ev[-1] for ev in rs.log):
         found.append(("mode-flag-on-in-sync", "is_asyncio_mode() is True during/after fn(code) on the asynq scheduler"))
-    nat = ra.native
     first = {}
     for ev in ra.log:
         tid = ev[1]
@@ -513,8 +555,9 @@ def judge(ref, style, aio, xv, out):
             cnt["viol:" + sig] = cnt.get("viol:" + sig, 0) + 1
             if len(out["violations"]) < MAX_VIOL_PER_JOB:
                 out["violations"].append({"sig": sig, "msg": msg, "features": feats,
-                                          "case": {"prog": prog.term, "style": style, "aio": aio, "xv": xv, "family": "main"}})
-    return 2
+                                          "case": {"prog": prog.term, "style": style, "aio": aio, "xv": xv, "phase2": bool(phase2),
+                                                   "family": "main"}})
+    return 3 if phase2 else 2
 
 
 MAX_VIOL_PER_JOB = 40
@@ -530,6 +573,7 @@ def run(job, env):
     out = _new_out()
     cnt = out["counters"]
     info = job["family"] == "info"
+    phase2 = bool(job.get("phase2"))
     idx = 0
     for base in job["bases"]:
         base = progx._tuplify(base)
@@ -551,7 +595,7 @@ def run(job, env):
                 if ref.has_sync and aio:
                     cnt["skipped_sync_call_with_explicit_asyncio_fn"] = cnt.get("skipped_sync_call_with_explicit_asyncio_fn", 0) + 1
                     continue
-                out["evals"] += judge(ref, style, aio, xv, out)
+                out["evals"] += judge(ref, style, aio, xv, out, phase2 and [style, aio, xv] in PHASE2_CFGS)
                 out["states"] += 1
                 if xv:
                     cnt["states_with_exception_objects_as_values"] = cnt.get("states_with_exception_objects_as_values", 0) + 1
@@ -595,12 +639,13 @@ def replay(case, env):
     prog = P.compile_prog(term)
     out = _new_out()
     ref = Ref(prog)
-    judge(ref, case["style"], case["aio"], case.get("xv", 0), out)
+    judge(ref, case["style"], case["aio"], case.get("xv", 0), out, bool(case.get("phase2")))
     return out["violations"]
 
 
 def finish(acc, tier):
-    return {"bounds": {"ladder (size<=n, deviations<=k, menu, [style, asyncio_fn mode, exception-valued variant])": LADDER[tier],
+    return {"bounds": {"second phase (fresh watcher + second await)": {"rungs with deviations <=": PHASE2_MAX_K, "configurations": PHASE2_CFGS},
+                       "ladder (size<=n, deviations<=k, menu, [style, asyncio_fn mode, exception-valued variant])": LADDER[tier],
                        "styles": list(STYLE_NAMES), "asyncio_fn modes": ["none", "even task ids explicit", "odd task ids explicit"],
                        "informational family (size<=n, deviations<=k, menu)": list(INFO_LADDER[tier]) + [INFO_MENU]},
             "technique": TECHNIQUE, "engine": ENGINE}
